@@ -303,6 +303,9 @@ pub mod field;
 pub mod metadata;
 mod parent;
 pub mod span;
+#[cfg(all(tokio_rs_tracing_verif, feature = "std"))]
+#[doc(hidden)]
+pub mod verif;
 
 #[doc(inline)]
 pub use self::{
